@@ -85,6 +85,7 @@ def make_case(i):
     h0, h1 = kind + '0', kind + '1'
     c.op('dump_el', h0, 'before')
     c.op('rep_info', h0)
+    c.op('rep_copy_info', h0)
     c.op('apply_repetition', h0)
     mag = rnd.choice([1.0, 1.0, 2.0, 0.5, -1.5])
     xr = rnd.random() < 0.5
@@ -193,6 +194,17 @@ def judge(chk, c, evs):
             chk.violation('C11/extrema-span', '%s: extremes %s span %s, the vectors span %s' % (rep['kind'], ext, bb(ext) if ext else None, bb(V)), rp)
     elif ext:
         chk.violation('C11/extrema-empty', 'empty lattice reports extremes %s' % ext, rp)
+    # ---- a copied repetition (Repetition::copy_from, used by every element copy and hierarchy query) denotes the same vectors
+    cpi = [e for e in evs if e['op'] == 'rep_copy_info' and e.get('k') != 'call']
+    if not cpi:
+        chk.harness_error('%s: rep_copy_info event missing' % c.id)
+        return
+    if cpi[0]['count'] != info[0]['count'] or not same_multiset(pairs(cpi[0]['offsets']), offs) or \
+            not same_multiset(pairs(cpi[0]['extrema']), ext):
+        chk.violation('C11/copy', '%s: a copy of the repetition enumerates count %d, offsets %s..., extremes %s; its source count %d, offsets %s..., extremes %s' % (
+            rep['kind'], cpi[0]['count'], pairs(cpi[0]['offsets'])[:4], pairs(cpi[0]['extrema']), info[0]['count'], offs[:4], ext), rp)
+    else:
+        chk.cov('copies_compared')
     # ---- expansion
     a = app[0]
     copies = a['copies']
@@ -262,7 +274,7 @@ def run(tier):
     chk.sample({'case': c.id, 'element_kind': c.meta['kind'], 'repetition': c.meta['rep'], 'transform': c.meta['trafo']})
     chk.rule = ('every element kind (polygon, flexpath, robustpath, label, reference; with GDSII and OASIS properties and sub-structure) x '
                 'repetition drawn from all five kinds with counts 0,1,2,3,4,7,30, spacings of either sign (0.001..100), explicit lists of '
-                '0..13 entries with zero and duplicate entries; get_count/get_offsets/get_extrema, apply_repetition (copies dumped, then one '
+                '0..13 entries with zero and duplicate entries; get_count/get_offsets/get_extrema on the repetition and on a Repetition::copy_from copy of it (must agree), apply_repetition (copies dumped, then one '
                 'copy mutated and the original dumped again) and Repetition::transform. Oracle: the checker\'s own enumeration of the vector '
                 'set; empty lattices (0 columns or rows) only require mutual consistency and "no copies". Non-trivial: >= 2 vectors on an '
                 'element that carries properties.')
